@@ -1098,7 +1098,11 @@ def decodeSpecs (S : Schema) (dec : Dec) (fuel : Nat) (ss : List ASection) : Lis
   | [], st => .ok st
   | sp :: rest, st =>
     match lookupSection ss sp.name with
-    | none => decodeSpecs S dec fuel ss rest st
+    | none =>
+      -- 2aec039: an omitted optional section is decoded like an empty one (defaults apply)
+      match sectionParser S dec fuel sp.kind sp.name [] st with
+      | .error e => .error (e, sp.name)
+      | .ok st' => decodeSpecs S dec fuel ss rest st'
     | some sec =>
       match sectionParser S dec fuel sp.kind sp.name sec.items st with
       | .error e => .error (e, sp.name)
